@@ -36,4 +36,7 @@ def canon (m : Msg) : String :=
 
 def WF (m : Msg) : Prop := X37.WF m.toStatus
 
+/-- run-time test of `WF` -/
+def wfBool (m : Msg) : Bool := X37.wfBool m.toStatus
+
 end PyAirtouch.Model.At4.X36
